@@ -143,6 +143,19 @@ fn through_text(rep: &mut Report, rng: &mut Rng, raw: &MapsDiff, what: &str) -> 
     let nd = refmodel::normalise(raw);
     let lay = emit::Layout::draw(rng);
     let text = emit::emit(raw, &lay, rng);
+    // Line endings: every tenth file has CR LF throughout, every tenth a mixture (a Windows checkout, an editor that converts
+    // the lines it touches). Whether the reader accepts CR LF is its decision (a refusal is counted, not judged); what it must
+    // not do is succeed with the CR glued to the last column of a line (a name "xNew\r", a removal read as an edit to "\r").
+    let line_endings = match rng.below(10) { 0 => "crlf", 1 => "mixed", _ => "lf" };
+    let text = if line_endings == "lf" || text.contains('\r') { text } else {
+        let mut out = String::with_capacity(text.len() + 64);
+        for l in text.split_inclusive('\n') {
+            if l.ends_with('\n') && (line_endings == "crlf" || rng.bool()) { out.push_str(&l[..l.len() - 1]); out.push_str("\r\n"); } else { out.push_str(l); }
+        }
+        rep.count(&format!("text.line_endings.{line_endings}"));
+        out
+    };
+    let foreign_endings = text.contains("\r\n");
     rep.count("text.files_written");
     if nd.classes != raw.classes { rep.count("text.files_with_equal_columns"); }
     rep.seen("text.layouts", &lay.describe());
@@ -150,8 +163,10 @@ fn through_text(rep: &mut Report, rng: &mut Rng, raw: &MapsDiff, what: &str) -> 
     rep.eval();
     match read_text(&text) {
         Err(pi) => { rep.violation(format!("C04 panic {}", pi.site()), json!({"panic": pi.message, "input": input()})); None }
+        Ok(Err(_)) if foreign_endings => { rep.count("text.line_endings.refused (not judged)"); None }
         Ok(Err(e)) => { rep.violation("C04 tinydiff: the reader rejects a well-formed diff text", json!({"error": e, "input": input()})); None }
         Ok(Ok(q)) => {
+            if foreign_endings { rep.count("text.line_endings.read"); }
             let got = maps::from_quill_diff(&q);
             let dd = cmp::kinds(&cmp::diff_diffs(&nd, &got));
             for (k, w) in &dd { rep.violation(format!("C04 tinydiff: the diff read differs from the diff written: {k}"), json!({"where": w, "input": input(), "read": got.render()})); }
@@ -725,6 +740,7 @@ fn main() {
         for a in ["None", "Add", "Remove", "Edit", "EditSame"] { for t in ["absent", "present_matching", "present_mismatching", "present_equal_to_new_value"] { need.push(format!("option.{a}.{t}")); } }
         for k in need { meta.oblige(format!("at least one case with {k}"), rep.get(&k) > 0); }
         meta.oblige("at least 10 distinct text layouts written", rep.seen_n("text.layouts") >= 10);
+        meta.oblige("diff files with CR LF line endings throughout (>= 30) and mixed (>= 30), and the reader's treatment of them observed", rep.get("text.line_endings.crlf") >= 30 && rep.get("text.line_endings.mixed") >= 30 && rep.get("text.line_endings.read") + rep.get("text.line_endings.refused (not judged)") > 0);
         for l in ["class", "field", "method"] { meta.oblige(format!("at least 3 wide pairs whose {l} level has 32 or more entries and the same key set on both sides"), rep.get(&format!("pairs.wide.{l}_level_with_32_or_more_entries_and_equal_key_sets")) >= 3); }
         if ctx.tier == Tier::Thorough {
             let r = common::miri::run_slice(&ctx, "c04", env!("CARGO_MANIFEST_DIR"), MIRI_CASES, 170, 285);
